@@ -3528,6 +3528,53 @@ def translate_validate(repo):
     return text, dict(status='ok', functions=status, missing=missing, source=', '.join(VAL_FILES.values()),
                       note='whole method bodies over the object grammar of Model/Validate.v; the constructors (__init__: bounds -> checkers) '
                            'are tied by correspondence')
+# ---------------------------------------------------------------- part 6: alias-and-mutation scan (Gen/Mutation.v)
+# The scan itself lives in tools/mutscan.py (reading rules, abstract domain and call classification are documented at its head).
+# The result is cached under the hash of the package sources and of the scanner, so that an unchanged tree costs nothing.
+def generate_mutation(repo, outdir, st):
+    import hashlib
+    sys.path.insert(0, os.path.dirname(os.path.abspath(__file__)))
+    dst, jdst, cdst = (os.path.join(outdir, n) for n in ('Mutation.v', 'Mutation.json', '.mutation_cache.json'))
+    try:
+        import mutscan
+        h = hashlib.sha256()
+        h.update(open(mutscan.__file__.replace('.pyc', '.py'), 'rb').read())
+        for dp, dn, files in os.walk(os.path.join(repo, 'votelib')):
+            dn.sort()
+            for f in sorted(files):
+                if f.endswith('.py'):
+                    h.update(os.path.relpath(os.path.join(dp, f), repo).encode())
+                    h.update(open(os.path.join(dp, f), 'rb').read())
+        key, res = h.hexdigest(), None
+        if os.path.exists(cdst):
+            try:
+                c = json.load(open(cdst))
+                if c.get('key') == key:
+                    res = c['result']
+            except ValueError:
+                res = None
+        if res is None:
+            res = mutscan.scan(repo)
+            json.dump(dict(key=key, result=res), open(cdst, 'w'))
+        text = mutscan.coq_text(res)
+        jtext = json.dumps(res, indent=1, sort_keys=True)
+        rows = res['rows']
+        st['Mutation'] = dict(status='ok', source='votelib/**/*.py', functions={}, missing=[], n_functions=res['functions'], rows=len(rows),
+                              classes={k: sum(1 for r in rows if r['cls'] == k) for k in ('Untouched', 'CopiedFirst', 'MayMutate')},
+                              public_rows=sum(1 for r in rows if r['public']), mutable_default_rows=sum(1 for r in rows if r['mutable_default']),
+                              rejected=['%s.%s' % (r['module'], r['qualname']) for r in res['rejected']],
+                              callable_sites=len(res['callable_sites']), unknown_callees=res['unknown'])
+    except Exception as e:     # noqa - Unreadable, SyntaxError, an internal error of the scan: the table is withheld, C18 falls back to the sweep
+        import mutscan as _m
+        text = _m.MUT_HEADER + ('\nDefinition mutation_table : list mrow := [].\nDefinition rejected_functions : list (string * string * Z * string) := [].\n'
+                                'Definition callable_sites : list (string * string * Z * string) := [].\n'
+                                'Definition not_propagated : list (string * string * string) := [].\n')
+        jtext = json.dumps(dict(rows=[], failed='%s: %s' % (type(e).__name__, e)))
+        st['Mutation'] = dict(status='failed', reason='%s: %s' % (type(e).__name__, e), source='votelib/**/*.py', missing=['mutation_table'])
+    for path_, t_ in ((dst, text), (jdst, jtext)):
+        old = open(path_).read() if os.path.exists(path_) else None
+        if old != t_:
+            open(path_, 'w').write(t_)
 
 
 def main():
@@ -3630,6 +3677,8 @@ def main():
     vdst = os.path.join(outdir, 'Validate.v')
     if (open(vdst).read() if os.path.exists(vdst) else None) != vtext:
         open(vdst, 'w').write(vtext)
+    # part 6: alias-and-mutation scan of every function of the package (tools/mutscan.py) -> Gen/Mutation.v, Gen/Mutation.json
+    generate_mutation(repo, outdir, st)
     json.dump(st, open(os.path.join(outdir, 'STATUS.json'), 'w'), indent=1)
     print(json.dumps(st, indent=1))
 
